@@ -1,7 +1,7 @@
 //! C19 — planning work grows at most linearly with the input length (hook counters).
 
 use datamatrix::data::encodation_plan;
-use datamatrix::verif_hooks::plan_stats;
+use datamatrix::verif_hooks::{plan_stats, total_plan_work};
 use serde_json::{json, Value};
 
 use super::common;
@@ -13,6 +13,9 @@ pub const MAX_LIVE: usize = 36;
 pub fn step_bound(n: usize) -> u64 {
     216 * (n as u64 + 1) + 6
 }
+
+/// An encode call may plan a small fixed number of times (the tree at hand plans once).
+pub const ENCODE_RUNS: u64 = 3;
 
 pub fn eval(cfg: &Cfg, input: &[u8], st: &mut Stats) -> Result<(), String> {
     let list = cfg.list.to_list();
@@ -37,6 +40,15 @@ pub fn eval(cfg: &Cfg, input: &[u8], st: &mut Stats) -> Result<(), String> {
     if r.is_some() && s.max_live > 6 {
         st.count("nontrivial");
     }
+    // the whole encode call: planner work of all planner runs it makes (cumulative counters)
+    let (runs0, steps0) = total_plan_work();
+    let _ = guarded(|| cfg.encode(input)).map_err(|p| format!("encode: {}", p))?;
+    let (runs1, steps1) = total_plan_work();
+    let (runs, steps) = (runs1 - runs0, steps1 - steps0);
+    if steps > ENCODE_RUNS * step_bound(n) {
+        return Err(format!("encoding {} bytes took {} plan steps in {} planner runs (bound {} x {})", n, steps, runs, ENCODE_RUNS, step_bound(n)));
+    }
+    st.max("planner_runs_per_encode", runs);
     Ok(())
 }
 
@@ -103,6 +115,29 @@ pub fn run(ctx: &Ctx) -> i32 {
             cfgs: gen::cfgs(&[ALL_MODES, common::NO_ASCII, 0x0b, 0x1d], &[d], &[true], &[false]),
         },
         Part {
+            name: "two-run periods (class a x i, class b x j; i, j <= 8) at length 400",
+            family: {
+                let units: Vec<&[u8]> = vec![b"A", b"a", b"1", b"*", &[0x80], b"~", b" "];
+                let mut l = Vec::new();
+                for (i, u1) in units.iter().enumerate() {
+                    for (j, u2) in units.iter().enumerate() {
+                        if i == j {
+                            continue;
+                        }
+                        for k1 in 1usize..=8 {
+                            for k2 in 1usize..=8 {
+                                let mut p: Vec<u8> = u1.iter().cycle().take(k1).cloned().collect();
+                                p.extend(u2.iter().cycle().take(k2));
+                                l.push(p.iter().cycle().take(400).cloned().collect::<Vec<u8>>());
+                            }
+                        }
+                    }
+                }
+                Family::list(l)
+            },
+            cfgs: gen::cfgs(&[ALL_MODES, common::NO_ASCII], &[d], &[true], &[false]),
+        },
+        Part {
             name: "ES-E fills at maximal lengths",
             family: Family::Periodic { patterns: gen::es_e_patterns(), lengths: vec![1555, 2335, 3000, 3116, 3117, 4000] },
             cfgs: gen::cfgs(&mq, &[d, a, s144], &[true], &[false]),
@@ -126,10 +161,11 @@ pub fn run(ctx: &Ctx) -> i32 {
     let cov = json!({
         "evaluations": ctx.evaluations(),
         "distinct_nontrivial": ctx.counter("nontrivial"),
-        "rule": format!("all cases distinct; non-trivial = more than 6 live plans at some point. Oracle: live plans <= {} and steps <= 216*(n+1)+6 from the hook counters. Sweep: {}", MAX_LIVE, gen::describe_parts(&parts)),
+        "rule": format!("all cases distinct; non-trivial = more than 6 live plans at some point. Oracle: live plans <= {} and steps <= 216*(n+1)+6 per planning call, and at most {} times that for all planner runs of one encode call (cumulative hook counters). Sweep: {}", MAX_LIVE, ENCODE_RUNS, gen::describe_parts(&parts)),
         "exhaustive": true,
         "max_live_plans_observed": ctx.maximum("live_plans"),
         "max_steps_per_char_x100_observed": ctx.maximum("steps_per_char_x100"),
+        "max_planner_runs_per_encode_observed": ctx.maximum("planner_runs_per_encode"),
     });
     ctx.finish("exploration", cov, vec![
         "hook: feature verif-hooks counts Plan::step calls and live plans inside optimize() (additive instrumentation)".into(),
